@@ -17,8 +17,9 @@ pair (keys are arbitrary triples), any payloads (messages are abstract identitie
 and falsy payloads such as "" are all covered), any disconnect–reconnect history.
 -/
 import NetqasmVerif.Lemmas.Hub
+import NetqasmVerif.Model.ThreadSocket
 namespace NQ.C18
-open NQ.Hub
+open NQ.Hub NQ.TSock
 
 /-- `chan_inv`: for every channel whose owner never registers a callback, in every reachable state,
 `sent = delivered ++ queue`. -/
@@ -59,17 +60,17 @@ theorem no_stale (progs : List (List Op)) (s : State) (k : Key) (h : Reachable p
 
 /-- a `recv` that reaches its `pop(0)` returns the HEAD of the queue, removes exactly it, and the
 queue is never empty at that point (the check-then-pop race cannot happen: one popper per key). -/
-theorem recv_returns_head (progs : List (List Op)) (s : State) (tid : Nat) (k : Key)
-    (h : Reachable progs s) (hpc : (s.threads tid).pc = .rPop k) :
+theorem recv_returns_head (progs : List (List Op)) (s : State) (tid : Nat) (k : Key) (tag : Nat)
+    (h : Reachable progs s) (hpc : (s.threads tid).pc = .rPop k tag) :
     ∃ m q s', s.msgs k = m :: q ∧ step s tid = some s' ∧ s'.msgs k = q ∧
       s'.delivered k = s.delivered k ++ [m] ∧
-      (s'.threads tid).res = (s.threads tid).res ++ [.got k m] := by
-  have hne := (baseInv_reachable progs s h).pop tid k (Or.inr hpc)
+      (s'.threads tid).res = (s.threads tid).res ++ [.got k m tag] := by
+  have hne := (baseInv_reachable progs s h).pop tid k tag (Or.inr hpc)
   cases hq : s.msgs k with
   | nil => exact absurd hq hne
   | cons m q =>
     let S : State := { s with msgs := upd s.msgs k q, delivered := upd s.delivered k (s.delivered k ++ [m]), popped := upd s.popped k (s.popped k ++ [m]), lock := none }
-    have hs : step s tid = some (setThread S tid (advance tid (s.threads tid) (.got k m))) := by
+    have hs : step s tid = some (setThread S tid (advance tid (s.threads tid) (.got k m tag))) := by
       unfold step; simp only [hpc, hq, S]
     exact ⟨m, q, _, rfl, hs, by simp [upd, S], by simp [upd, S], by simp⟩
 
@@ -79,25 +80,25 @@ theorem pop_never_crashes (progs : List (List Op)) (s : State) (h : Reachable pr
 
 /-- `recv_nonblock_empty`: a non-blocking `recv` that finds the queue empty reports emptiness and
 changes nothing in the shared state. -/
-theorem recv_nonblock_empty (s : State) (tid : Nat) (k : Key)
-    (hpc : (s.threads tid).pc = .rLen k false) (hq : s.msgs k = []) :
+theorem recv_nonblock_empty (s : State) (tid : Nat) (k : Key) (tag : Nat)
+    (hpc : (s.threads tid).pc = .rLen k .nb tag) (hq : s.msgs k = []) :
     ∃ s', step s tid = some s' ∧ (s'.threads tid).res = (s.threads tid).res ++ [.empty k] ∧
       s'.msgs = s.msgs ∧ s'.sent = s.sent ∧ s'.delivered = s.delivered ∧ s'.open_ = s.open_ ∧
       s'.remote = s.remote ∧ s'.recvCbs = s.recvCbs ∧ s'.lostCbs = s.lostCbs ∧ s'.lock = s.lock ∧
       s'.cbStore = s.cbStore := by
   have hs : step s tid = some (setThread s tid (advance tid (s.threads tid) (.empty k))) := by
-    unfold step; simp only [hpc, hq]; rfl
+    unfold step; simp only [hpc, hq]
   exact ⟨_, hs, by simp, rfl, rfl, rfl, rfl, rfl, rfl, rfl, rfl, rfl⟩
 
 /-- a `recv` (blocking or not) that finds a message queued goes on to pop it (it does not report
 emptiness and does not loop) -/
-theorem recv_nonblock_nonempty (s : State) (tid : Nat) (k : Key) (b : Bool)
-    (hpc : (s.threads tid).pc = .rLen k b) (hq : s.msgs k ≠ []) :
-    ∃ s', step s tid = some s' ∧ (s'.threads tid).pc = .rLock2 k ∧ s'.msgs = s.msgs := by
+theorem recv_nonblock_nonempty (s : State) (tid : Nat) (k : Key) (b : RMode) (tag : Nat)
+    (hpc : (s.threads tid).pc = .rLen k b tag) (hq : s.msgs k ≠ []) :
+    ∃ s', step s tid = some s' ∧ (s'.threads tid).pc = .rLock2 k tag ∧ s'.msgs = s.msgs := by
   cases hm : s.msgs k with
   | nil => exact absurd hm hq
   | cons m q =>
-    have hs : step s tid = some (setThread s tid (goto (s.threads tid) (.rLock2 k))) := by
+    have hs : step s tid = some (setThread s tid (goto (s.threads tid) (.rLock2 k tag))) := by
       unfold step; simp only [hpc, hm]
     exact ⟨_, hs, by simp, rfl⟩
 
@@ -266,25 +267,26 @@ theorem callback_matches_incarnation (progs : List (List Op)) (s : State) (k : K
 /-- a `send` that looks up the callback while the receiving key is open takes the callback path exactly when
 the open incarnation is a callback socket, and the queue path exactly when it is plain -/
 theorem send_path_matches_incarnation (progs : List (List Op)) (s : State) (tid : Nat) (k0 : Key) (m : Msg)
+    (more : List Nat)
     (h : Reachable progs s) (hk : LifeOk (rkey k0).1 (rkey k0) false (progs.getD (rkey k0).1 []))
-    (hpc : (s.threads tid).pc = .sCb k0 m) (hopen : s.open_ (rkey k0) = true) :
+    (hpc : (s.threads tid).pc = .sCb k0 m more) (hopen : s.open_ (rkey k0) = true) :
     ∃ s', step s tid = some s' ∧
-      (s'.threads tid).pc = (if s.cbMode (rkey k0) then .sCall k0 m else .sLock k0 m) := by
+      (s'.threads tid).pc = (if s.cbMode (rkey k0) then .sCall k0 m more else .sLock k0 m more) := by
   have hm := (callback_matches_incarnation progs s (rkey k0) h hk).2 hopen
   cases hc : s.cbMode (rkey k0) with
   | true =>
     rw [hc] at hm
-    have hs : step s tid = some (setThread s tid (goto (s.threads tid) (.sCall k0 m))) := by
+    have hs : step s tid = some (setThread s tid (goto (s.threads tid) (.sCall k0 m more))) := by
       unfold step; simp only [hpc, hm, if_true]
     exact ⟨_, hs, by simp⟩
   | false =>
     rw [hc] at hm
-    have hs : step s tid = some (setThread s tid (goto (s.threads tid) (.sLock k0 m))) := by
+    have hs : step s tid = some (setThread s tid (goto (s.threads tid) (.sLock k0 m more))) := by
       unfold step; simp only [hpc, hm, Bool.false_eq_true, if_false]
     exact ⟨_, hs, by simp⟩
 
 def mixedProgs : List (List Op) :=
-  [[.connect 1 0 false, .send 1 0 1, .send 1 0 2],
+  [[.connect 1 0 false, .send 1 0 1 [], .send 1 0 2 []],
    [.connect 0 0 false, .disconnect 0 0, .connect 0 0 true]]
 
 /-- the global identity fails for a key that is first plain, then (after a disconnect) a callback socket:
@@ -301,10 +303,202 @@ theorem mixed_key_not_globally_fifo :
 example : LifeOk 1 (1, 0, 0) false (mixedProgs.getD 1 []) := by
   simp [mixedProgs, LifeOk]
 
+/-! ### The socket layer (`ThreadSocket`) and the broadcast channel on top of the hub
+
+`Model/ThreadSocket.lean`: every socket-level call is a short program of hub operations (`compile`) and a local
+view of the hub outcome (`view`).  The theorems below are about programs written in socket-level operations
+(`sprogs`), run on the hub transition system through `compileProg`, under every interleaving. -/
+
+/-- `structured_roundtrip`: what `recv_structured` returns for a message produced by `send_structured` is that
+message; `recv` returns a string as it was sent; and in every case the returned value determines the wire
+(nothing is lost or altered by the (de)serialisation — a string that is no JSON message is reported as such) -/
+theorem structured_roundtrip (k : Key) :
+    (∀ h p, view (.got k (enc (.structured h p)) 1) = .gotStructured k h p) ∧
+    (∀ w, view (.got k (enc (.str w)) 0) = .gotStr k w) ∧
+    (∀ w tag, wireOfView (view (.got k w tag)) = some w) := by
+  refine ⟨fun h p => rfl, fun w => rfl, ?_⟩
+  intro w tag
+  simp only [view]
+  split
+  · cases w <;> simp [dec, wireOfView]
+  · rfl
+
+theorem recvWires_eq_gotOf (k : Key) (rs : List Res) : recvWires k rs = gotOf k rs := by
+  unfold recvWires gotOf
+  congr 1
+  funext r
+  cases r <;> simp only [gotSel]
+  rename_i k' w tag
+  split
+  · exact (structured_roundtrip k').2.2 w tag
+  · rfl
+
+/-- for EVERY key and program: the channel history is exactly what the sender's socket-level sends report -/
+theorem sent_results (progs : List (List Op)) (s : State) (k : Key) (h : Reachable progs s) :
+    s.sent (rkey k) = sentOf k (s.threads k.1).res := by
+  induction h with
+  | init =>
+    show ([] : List Msg) = sentOf k (startThread k.1 (progs.getD k.1 [])).res
+    unfold startThread; split <;> rfl
+  | step s s' tid hr hs ih => exact sentres_step k s s' tid (baseInv_reachable progs s hr).own ih hs
+
+theorem rkey_rkey (k : Key) : rkey (rkey k) = k := by simp [rkey]
+
+/-- the hub program of a socket-level program registers no callback for `k` if the socket-level program
+never opens `k` with `use_callbacks=True` -/
+theorem compile_noCb (t : Nat) (k : Key) (sp : List SOp)
+    (h : ∀ rn id, SOp.connect rn id true ∈ sp → (t, rn, id) ≠ k) : NoCbProg t k (compileProg sp) := by
+  intro rn id hm
+  unfold compileProg at hm
+  obtain ⟨sop, hs, hc⟩ := List.mem_flatMap.mp hm
+  cases sop with
+  | connect rn' id' cb =>
+    simp only [compile, List.mem_singleton, Op.connect.injEq] at hc
+    obtain ⟨rfl, rfl, rfl⟩ := hc
+    exact h rn id hs
+  | brecv r rs id' b => cases b <;> simp [compile] at hc
+  | _ => simp [compile] at hc
+
+/-- `socket_exactly_once_fifo`: endpoints written in socket-level operations (plain and structured sends and
+receives mixed, broadcast sends and polls included), any number of them, every interleaving.  For a key `k`
+that is never opened with callbacks: the values returned so far by the receiving endpoint's receive calls on `k`
+(in program order, each standing for its wire: `structured_roundtrip`), followed by what is still queued, are
+exactly the wires of the peer's completed socket-level sends on that socket, in sending order.  The receive vocabulary is everything that ends in `_SocketHub.recv`: `recv`, `recv_silent`,
+`recv_structured`, the blocking broadcast receive (poll) and the non-blocking one (one round). -/
+theorem socket_exactly_once_fifo (sprogs : List (List SOp)) (s : State) (k : Key)
+    (h : Reachable (sprogs.map compileProg) s)
+    (hk : ∀ t rn id, SOp.connect rn id true ∈ sprogs.getD t [] → (t, rn, id) ≠ k) :
+    recvWires k (s.threads k.1).res ++ s.msgs k = sentOf (rkey k) (s.threads (rkey k).1).res := by
+  have hno : ∀ t, NoCbProg t k ((sprogs.map compileProg).getD t []) := by
+    intro t
+    have : (sprogs.map compileProg).getD t [] = compileProg (sprogs.getD t []) := by
+      simp only [List.getD_eq_getElem?_getD, List.getElem?_map]
+      cases sprogs[t]? <;> simp [compileProg]
+    rw [this]
+    exact compile_noCb t k _ (hk t)
+  have h1 := exactly_once_fifo _ s k h hno
+  have h2 := sent_results _ s (rkey k) h
+  rw [rkey_rkey] at h2
+  rw [recvWires_eq_gotOf, ← h1, h2]
+
+/-- the same for keys of ANY history (callbacks, reconnects): the queue path alone -/
+theorem socket_queue_path (sprogs : List (List SOp)) (s : State) (k : Key)
+    (h : Reachable (sprogs.map compileProg) s) :
+    recvWires k (s.threads k.1).res ++ s.msgs k = s.queued k := by
+  have := queue_path_fifo _ s k h
+  rw [recvWires_eq_gotOf, this.2, this.1]
+
+/-- one remote of a (broadcast) send: the hand-over step appends the message exactly once to exactly that
+remote's channel, records it in the sender's results, and goes on with the NEXT remote of the list (or completes
+the operation when the list is exhausted) -/
+theorem bsend_progress (s : State) (tid : Nat) (k : Key) (m : Msg) (more : List Nat)
+    (hpc : (s.threads tid).pc = .sCall k m more ∨ (s.threads tid).pc = .sAppend k m more) :
+    ∃ s', step s tid = some s' ∧
+      s'.sent (rkey k) = s.sent (rkey k) ++ [m] ∧ (∀ k2, k2 ≠ rkey k → s'.sent k2 = s.sent k2) ∧
+      (s'.threads tid).res = (s.threads tid).res ++ [.sent k m] ∧
+      (∀ r rs, more = r :: rs → (s'.threads tid).pc = .sCheck (k.1, r, k.2.2) m rs) := by
+  rcases hpc with hpc | hpc
+  · cases more with
+    | nil =>
+      refine ⟨_, by unfold step; simp only [hpc]; rfl, ?_, ?_, ?_, ?_⟩
+      · simp [upd]
+      · intro k2 h2; simp [upd, h2]
+      · simp
+      · intro r rs h; cases h
+    | cons r rs =>
+      refine ⟨_, by unfold step; simp only [hpc]; rfl, ?_, ?_, ?_, ?_⟩
+      · simp [upd]
+      · intro k2 h2; simp [upd, h2]
+      · simp
+      · intro r' rs' h; injection h with h1 h2; subst h1; subst h2; simp
+  · cases more with
+    | nil =>
+      refine ⟨_, by unfold step; simp only [hpc]; rfl, ?_, ?_, ?_, ?_⟩
+      · simp [upd]
+      · intro k2 h2; simp [upd, h2]
+      · simp
+      · intro r rs h; cases h
+    | cons r rs =>
+      refine ⟨_, by unfold step; simp only [hpc]; rfl, ?_, ?_, ?_, ?_⟩
+      · simp [upd]
+      · intro k2 h2; simp [upd, h2]
+      · simp
+      · intro r' rs' h; injection h with h1 h2; subst h1; subst h2; simp
+
+/-- a broadcast stops at the first remote that is not connected: nothing is appended, the remaining remotes
+are not served (ConnectionError propagates out of `BroadcastChannel.send`) -/
+theorem bsend_abort (s : State) (tid : Nat) (k : Key) (m : Msg) (more : List Nat)
+    (hpc : (s.threads tid).pc = .sCheck k m more) (hc : (s.open_ k && s.open_ (rkey k)) = false) :
+    ∃ s', step s tid = some s' ∧ s'.sent = s.sent ∧ s'.msgs = s.msgs ∧
+      (s'.threads tid).res = (s.threads tid).res ++ [.connErr k m] := by
+  have hs : step s tid = some (setThread s tid (advance tid (s.threads tid) (.connErr k m))) := by
+    unfold step; simp only [hpc, hc, Bool.false_eq_true, if_false]
+  exact ⟨_, hs, rfl, rfl, by simp⟩
+
+/-- `broadcast_delivers_each_once`, three endpoints, every one broadcasting to the other two and polling:
+(kernel-decided run of the compiled socket-level programs) each remote's channel got the broadcast exactly
+once, and what `recv` returned per sender is in that sender's sending order. The general statements are
+`bsend_progress` (one append per remote, in list order), `sent_results` (the channel history IS the sender's
+results) and `socket_exactly_once_fifo` per (receiver, sender) key — poll results included. -/
+theorem broadcast_delivers_each_once :
+    let sprogs : List (List SOp) :=
+      [[.connect 1 0 false, .connect 2 0 false, .bsend 1 [2] 0 10, .bsend 1 [2] 0 11],
+       [.connect 0 0 false, .connect 2 0 false, .brecv 0 [2] 0 true, .brecv 0 [2] 0 true],
+       [.connect 0 0 false, .connect 1 0 false, .brecv 0 [1] 0 true, .bsend 0 [1] 0 20, .brecv 0 [1] 0 true]]
+    let progs := sprogs.map compileProg
+    let run := runSched (init progs) ((List.replicate 60 [0, 1, 2]).flatten)
+    let s := lastState (init progs) run
+    s.sent (1, 0, 0) = [10, 11] ∧ s.sent (2, 0, 0) = [10, 11] ∧ s.sent (0, 2, 0) = [20] ∧ s.sent (1, 2, 0) = [20] ∧
+    recvWires (1, 0, 0) (s.threads 1).res = [10, 11] ∧ recvWires (2, 0, 0) (s.threads 2).res = [10, 11] := by
+  decide
+
+/-- `broadcast_recv_nonblocking_one_round` (the code after the fix of F48): a non-blocking broadcast receive is
+ONE round of non-blocking receives over the remotes in list order.  On an empty socket it goes on with the next
+remote of the list and, after the last one, reports emptiness without changing the shared state; on a socket
+with a message it pops that message (`recv_nonblock_nonempty`, `recv_returns_head`: the head, exactly once). -/
+theorem broadcast_recv_nonblocking_one_round (r : Nat) (rs : List Nat) (id : Nat) :
+    compile (.brecv r rs id false) = [.recv r id (.pollOnce rs) 0] ∧
+    (∀ (s : State) (tid : Nat) (k : Key) (tag r' : Nat) (rs' : List Nat),
+      (s.threads tid).pc = .rLen k (.pollOnce (r' :: rs')) tag → s.msgs k = [] →
+      step s tid = some (setThread s tid (goto (s.threads tid) (.rLock (k.1, r', k.2.2) (.pollOnce rs') tag)))) ∧
+    (∀ (s : State) (tid : Nat) (k : Key) (tag : Nat),
+      (s.threads tid).pc = .rLen k (.pollOnce []) tag → s.msgs k = [] →
+      step s tid = some (setThread s tid (advance tid (s.threads tid) (.empty k)))) := by
+  refine ⟨rfl, ?_, ?_⟩
+  · intro s tid k tag r' rs' hpc hq
+    unfold step; simp only [hpc, hq]
+  · intro s tid k tag hpc hq
+    unfold step; simp only [hpc, hq]
+
+/-- a non-blocking broadcast receive finds the message of the SECOND remote although the first has none
+(kernel-decided run; before the fix of F48 the call raised without looking at any socket) -/
+example :
+    let sprogs : List (List SOp) :=
+      [[.connect 1 0 false, .connect 2 0 false, .brecv 1 [2] 0 false, .brecv 1 [2] 0 false],
+       [.connect 0 0 false],
+       [.connect 0 0 false, .send 0 0 9]]
+    let progs := sprogs.map compileProg
+    let run := runSched (init progs) ([2, 1, 0, 2, 1, 0, 2, 1, 0, 2, 1, 0, 2, 2, 2, 2, 2, 2] ++ List.replicate 30 0)
+    let s := lastState (init progs) run
+    ((s.threads 0).res.map view).filter (fun r => r ≠ .connected (0, 1, 0) ∧ r ≠ .connected (0, 2, 0)) =
+      [.gotStr (0, 2, 0) 9, .empty (0, 2, 0)] := by decide
+
+/-- mixed plain / structured traffic through the socket layer (kernel-decided run): the structured message comes
+back as (header, payload), the string as a string, in sending order -/
+example :
+    let sprogs : List (List SOp) :=
+      [[.connect 1 0 false, .sendStructured 1 0 7 8, .send 1 0 5, .sendStructured 1 0 1 2],
+       [.connect 0 0 false, .recvStructured 0 0 true, .recv 0 0 true, .recv 0 0 true]]
+    let progs := sprogs.map compileProg
+    let run := runSched (init progs) ((List.replicate 30 [0, 1]).flatten)
+    let s := lastState (init progs) run
+    ((s.threads 1).res.map view).filter (fun r => (wireOfView r).isSome) =
+      [.gotStructured (1, 0, 0) 7 8, .gotStr (1, 0, 0) 5, .gotStr (1, 0, 0) (.json 1 2)] := by decide
+
 /-! ### The F20 schedule on the model of the fixed code, and non-vacuity -/
 
 def f20Progs : List (List Op) :=
-  [[.connect 1 0 false, .send 1 0 1, .send 1 0 2], [.connect 0 0 true]]
+  [[.connect 1 0 false, .send 1 0 1 [], .send 1 0 2 []], [.connect 0 0 true]]
 
 /-- the schedule shape of F20 (B starts connecting, A connects and sends m1, B goes on, A sends m2) -/
 def f20Sched : List Nat := [1, 1, 1, 0, 0, 0, 0, 0, 0, 1, 1, 0, 0, 0]
@@ -333,8 +527,8 @@ example : (∀ t, CbOnlyProg t (1, 0, 0) (f20Progs.getD t [])) ∧ (∀ t, NoCbP
 
 /-- a plain exchange: A sends 7 then 8, B receives twice: B's results are [7, 8] in order -/
 example :
-    let progs : List (List Op) := [[.connect 1 0 false, .send 1 0 7, .send 1 0 8],
-                                   [.connect 0 0 false, .recv 0 0 true, .recv 0 0 false]]
+    let progs : List (List Op) := [[.connect 1 0 false, .send 1 0 7 [], .send 1 0 8 []],
+                                   [.connect 0 0 false, .recv 0 0 .blk 0, .recv 0 0 .nb 0]]
     let s := lastState (init progs) (runSched (init progs)
       [0, 0, 1, 1, 1, 0, 0, 0, 0, 0, 0, 0, 0, 0, 1, 1, 1, 1, 1, 1, 1, 1, 1, 1, 1])
     gotOf (1, 0, 0) (s.threads 1).res = [7, 8] ∧ s.sent (1, 0, 0) = [7, 8] := by decide
@@ -343,8 +537,8 @@ example :
 cover it): A connects, sends 7, disconnects, connects the same key again, sends 8; B receives [7, 8];
 the hypotheses of `chan_inv`/`exactly_once_fifo` hold for these programs and every step is enabled -/
 example :
-    let progs : List (List Op) := [[.connect 1 0 false, .send 1 0 7, .disconnect 1 0, .connect 1 0 false, .send 1 0 8],
-                                   [.connect 0 0 false, .recv 0 0 true, .recv 0 0 true]]
+    let progs : List (List Op) := [[.connect 1 0 false, .send 1 0 7 [], .disconnect 1 0, .connect 1 0 false, .send 1 0 8 []],
+                                   [.connect 0 0 false, .recv 0 0 .blk 0, .recv 0 0 .blk 0]]
     let run := runSched (init progs)
       [0, 0, 0, 0, 1, 1, 1, 1, 1, 1, 0, 0, 0, 0, 0, 0, 0, 0, 0, 0, 0, 0, 0, 0, 0, 0, 0, 0, 0, 0,
        1, 1, 1, 1, 1, 1, 1, 1, 1, 1]
@@ -352,8 +546,8 @@ example :
     gotOf (1, 0, 0) (s.threads 1).res = [7, 8] ∧ s.sent (1, 0, 0) = [7, 8] ∧ run.all (·.2) = true := by decide
 
 example (t : Nat) : NoCbProg t (1, 0, 0)
-    ([[Op.connect 1 0 false, .send 1 0 7, .disconnect 1 0, .connect 1 0 false, .send 1 0 8],
-      [.connect 0 0 false, .recv 0 0 true, .recv 0 0 true]].getD t []) := by
+    ([[Op.connect 1 0 false, .send 1 0 7 [], .disconnect 1 0, .connect 1 0 false, .send 1 0 8 []],
+      [.connect 0 0 false, .recv 0 0 .blk 0, .recv 0 0 .blk 0]].getD t []) := by
   intro rn id h
   match t with
   | 0 => simp at h
